@@ -39,15 +39,22 @@ def DefSafeHead : BL → Prop
   | .cons b _ _ => DefSafe b
 end
 
+/-- is this a dictionary builder? -/
+def B.isDict : B → Bool
+  | .dictionary _ _ _ _ => true
+  | _ => false
+
 mutual
 /-- every builder that issues `serialize_default` (a nullable struct or fixed-size list receiving a null)
-targets `DefSafe` children.  A property of the schema only (see `Lemmas/C10Take`: unchanged by every push). -/
+targets `DefSafe` children; and the KEY builder of a dictionary is not itself a dictionary (a dictionary forwards
+integers through `to_string`, so a dictionary-keyed dictionary would receive its keys as strings and hand back
+whatever its own values decode to).  A property of the schema only (see `Lemmas/C10Take`: unchanged by every push). -/
 def Safe : B → Prop
   | .list _ _ _ _ _ el => Safe el
   | .fixedSizeList _ _ _ _ v _ el => Safe el ∧ (v.isSome = true → DefSafe el)
   | .map _ _ _ _ ks vs => Safe ks ∧ Safe vs
   | .struct _ _ v fs _ _ _ => SafeL fs ∧ (v.isSome = true → DefSafeL fs)
-  | .dictionary _ idx vals _ => Safe idx ∧ Safe vals
+  | .dictionary _ idx vals _ => idx.isDict = false ∧ Safe idx ∧ Safe vals
   | .union _ fs _ _ _ => SafeL fs
   | _ => True
 def SafeL : BL → Prop
